@@ -17,7 +17,7 @@ CHECKS = {
                 note="trusts O-sem (framework/oracles.py) as the reading of the documented relations and the parameter contract of DESIGN.md section 4; exhaustive only inside the listed scope",
                 technique="runtime oracle on real propagator calls (exhaustive small scope + random), hull by enumeration"),
     "C06": dict(level="exploration", ref="DESIGN.md section 6 C06",
-                text="All instantiated tuples over a small universe per type x parameter grid (exhaustive for arity <= 3-4) and every observed call that collapses a box to a point: status must be inconsistency iff the ground relation is false (circuit constraints on permutations only). Through the engine on large planted models: with every variable fixed the satisfying point is delivered and a violating neighbour is not.",
+                text="All instantiated tuples over a small universe per type x parameter grid (exhaustive for arity <= 3-4) and every observed call that collapses a box to a point: status must be inconsistency iff the ground relation is false (circuit constraints on permutations only). Through the engine on large planted models: with every variable fixed the satisfying point is delivered and a violating neighbour is not. Parameters include the unsatisfiable but well-formed ones: counts outside 0..n, a gcc lower bound above its capacity, linear constants out of reach.",
                 note="trusts O-sem; point scope exhaustive only for the listed arities/universes",
                 technique="runtime oracle on real propagator calls over all ground tuples of a small scope + random collapse cases"),
     "C14": dict(level="exploration", ref="DESIGN.md section 6 C14",
@@ -53,7 +53,7 @@ CHECKS.update({
                 note="schedule space sampled; O-fix only for small domains; order independence asserted only for exact-BC models",
                 technique="invariant-at-hook monitor on every pass + schedule injection at the queue pop + reference fixpoint"),
     "C09": dict(level="exploration", ref="DESIGN.md section 6 C09",
-                text="All five value heuristics are called directly on hand-built stacks for every [a,b] with a in [-5,5], width 1..8 at random levels (both modes) and their partition / untouched-state / announced-events postcondition checked, then backtrack() is driven and every restore compared bit for bit; the same assertions run around every decision and backtrack of real interpreted searches. The unit harness also places the domains far from zero (bounds adding up beyond 32 bits, widths up to 70001).",
+                text="All five value heuristics are called directly on hand-built stacks for every [a,b] with a in [-5,5], width 1..8 at random levels (both modes) and their partition / untouched-state / announced-events postcondition checked, then backtrack() is driven and every restore compared bit for bit; the same assertions run around every decision and backtrack of real interpreted searches. The unit harness also places the domains far from zero (bounds adding up beyond 32 bits, widths up to 70001). Cost tables include rows of free moves (several or only zero costs).",
                 note="unit scope exhaustive for the listed shapes; in-search part sampled",
                 technique="pre/post-condition monitors on heuristic calls and backtracks (unit harness + in-search hooks)"),
     "C10": dict(level="exploration", ref="DESIGN.md section 6 C10",
@@ -82,11 +82,11 @@ CHECKS.update({
                 note="relations need no oracle; cost-based heuristics replaced by generic ones in rewritten models",
                 technique="metamorphic runtime monitor comparing solution multisets and optima of rewritten models"),
     "C18": dict(level="fault_enumeration", ref="DESIGN.md section 6 C18",
-                text="The fault space worker x number of workers (1-4) x death point (before first message, before/after each solution message, before the completion marker) x manner (SIGKILL, os._exit, exception) x operation is enumerated on two small models with real forked workers; a structural oracle (no producer alive and caller inside Queue.get(timeout=None), or 60 s without return after the last death) decides 'blocked forever'. Quick runs a seeded subset of 128 cases, thorough all 1080. A second grid kills a worker, lets a survivor's message arrive after the death and keeps all survivors alive and silent for 70 s: the caller must return or raise within 25 s of the death.",
+                text="The fault space worker x number of workers (1-4) x death point (before first message, before/after each solution message, before the completion marker) x manner (SIGKILL, os._exit, exception) x operation is enumerated on two small models with real forked workers; a structural oracle (no producer alive and caller inside Queue.get(timeout=None), or 60 s without return after the last death) decides 'blocked forever'. Quick runs a seeded subset of 128 cases, thorough all 1080. A second grid kills a worker, lets a survivor's message arrive after the death and keeps all survivors alive and silent for 70 s: the caller must return or raise within 25 s of the death. A third grid SIGKILLs a worker while the consumer is slow (full pipe), with solution messages below and far above PIPE_BUF, choosing the worker whose feeder thread is blocked in write(2) or the one waiting for the queue's lock; the partial-message hang it reproduces is open finding F20.",
                 note="complete for the small models used, not for all problems; crash points are made well defined by flushing the worker's feeder thread first",
                 technique="fault injection at enumerated crash points in real worker processes + structural deadlock oracle"),
     "C20": dict(level="exploration", ref="DESIGN.md section 6 C20",
-                text="Each of the 14 shipped model families is solved over a size sweep and several configurations in compiled mode; every solution goes through an independent definition-level validator, counts and optima are compared with literature values or own enumerations (Held-Karp, subset DP, ruler search, sum-free colourings, backtracking sudoku), and symmetry-breaking variants are related to the plain models. Completeness at definition level: symmetric images (relabelling, dihedral, row/column/box permutations) of delivered solutions that the validator accepts must be delivered by the model without symmetry breaking, and are accepted when presented ground. The Golomb model's own consistency algorithm also runs under non-default search orders (decision domains = marks, reversed) x every heuristic pair.",
+                text="Each of the 14 shipped model families is solved over a size sweep and several configurations in compiled mode; every solution goes through an independent definition-level validator, counts and optima are compared with literature values or own enumerations (Held-Karp, subset DP, ruler search, sum-free colourings, backtracking sudoku), and symmetry-breaking variants are related to the plain models. Completeness at definition level: symmetric images (relabelling, dihedral, row/column/box permutations) of delivered solutions that the validator accepts must be delivered by the model without symmetry breaking, and are accepted when presented ground. The Golomb model's own consistency algorithm also runs under non-default search orders (decision domains = marks, reversed) x every heuristic pair. Tournaments of 8 (10) teams: the first 60 schedules under several strategies, with and without symmetry breaking.",
                 note="validators know each model's variable layout; literature constants listed in evidence assumptions",
                 technique="definition-level validators and independent reference solvers applied to every produced object"),
 })
@@ -108,7 +108,7 @@ CHECKS.update({
                 note="only differences visible in outputs or statistics are seen; each axis is a separate child process because the mode is read at import time",
                 technique="trace recorder at the API boundary + cross-process/mode/history trace comparison"),
     "C16": dict(level="exploration", ref="DESIGN.md section 6 C16",
-                text="In-contract workloads run under a source-level bounds sanitizer (import hook rewriting every non-literal subscript of nucs, 643 sites, flags out-of-range, computed negative and clamped-slice indices), under numba's bounds-check build with an unraisable-exception hook that halts on the first report, and with red-zone canaries around the stacks; the evidence lists reached / instrumented sites and the unreached ones. Large planted models (arity <= 14) run in the bounds-check build. A quarter of the direct calls use domains up to ~10^9 wide / value ranges far from zero (narrow scratch arrays, 16-bit offsets).",
+                text="In-contract workloads run under a source-level bounds sanitizer (import hook rewriting every non-literal subscript of nucs, 643 sites, flags out-of-range, computed negative and clamped-slice indices), under numba's bounds-check build with an unraisable-exception hook that halts on the first report, and with red-zone canaries around the stacks; the evidence lists reached / instrumented sites and the unreached ones. Large planted models (arity <= 14) run in the bounds-check build. A quarter of the direct calls use domains up to ~10^9 wide / value ranges far from zero (narrow scratch arrays, 16-bit offsets). A fifth of the models restrict the decision domains to a proper subset (the search may stop or refuse, never index with 'no domain').",
                 note="a clean run is not memory safety: only reached sites with the index values that occurred; compiled-mode negative wrap-around is inferred from the interpreted sanitizer on the same source",
                 technique="bounds sanitizers: AST-instrumented interpretation + NUMBA_BOUNDSCHECK build + red-zone canaries"),
 })
